@@ -14,8 +14,24 @@ from dsim import depth as DP
 LENGTH_BIAS = [0, 1, 2, 9, 10, 11, 19, 20, 21, 29, 30, 31, 39, 40, 41]
 
 
+# When set (by the C10 driver, for a run whose set is "aware"), every
+# datetime built from a scenario is timezone-aware, with one of these UTC
+# offsets (minutes) picked from the datetime's own fields: the members of
+# one set then spell instants in different offsets, and what must count is
+# the instant, not the wall clock.
+AWARE_OFFSETS = None
+
+
+def _aw(d, key=0):
+    if AWARE_OFFSETS is None or d.tzinfo is not None:
+        return d
+    off = AWARE_OFFSETS[key % len(AWARE_OFFSETS)]
+    return d.replace(tzinfo=datetime.timezone(
+        datetime.timedelta(minutes=off)))
+
+
 def dt(x):
-    return datetime.datetime(*x)
+    return _aw(datetime.datetime(*x), sum(x))
 
 
 def undt(d):
@@ -299,7 +315,7 @@ MEMBER_INSTANTS = None
 
 def resolve(ref, L, base):
     if ref[0] == "far":
-        return FAR[ref[1]]
+        return _aw(FAR[ref[1]])
     if ref[0] == "abs":
         return dt(ref[1])
     _, k, delta = ref
@@ -314,8 +330,8 @@ def resolve(ref, L, base):
         return e + datetime.timedelta(seconds=delta)
     except OverflowError:
         # next to the first or last representable instant
-        return datetime.datetime.min if delta < 0 else \
-            datetime.datetime.max.replace(microsecond=0)
+        return _aw(datetime.datetime.min if delta < 0 else
+                   datetime.datetime.max.replace(microsecond=0))
 
 
 def ridx(x, L):
